@@ -115,7 +115,7 @@ def driver_path():
     return os.path.join(LEAN, ".lake", "build", "bin", "driver")
 
 
-def run_driver(cases):
+def run_driver(cases, tolerate=False):
     """cases: list of dicts -> list of dicts ({'mirror','spec'} or {'error'})."""
     if not cases:
         return []
@@ -129,7 +129,7 @@ def run_driver(cases):
         raise InternalError("driver returned %d lines for %d cases" % (len(lines), len(cases)))
     res = [json.loads(l) for l in lines]
     for c, r in zip(cases, res):
-        if "error" in r:
+        if "error" in r and not tolerate:
             raise InternalError("driver could not decode case %s: %s" % (json.dumps(c)[:300], r["error"]))
     return res
 
